@@ -53,7 +53,28 @@ def add_runs(target, runs_extra):
             p['runs'].append(r); seen.add(key(r))
     json.dump(p, open('%s/props/%s.json' % (V, target), 'w'), indent=1)
     print(target, len(p['runs']), 'runs (with extras)')
-add_runs('C02', [dict(r) for r in load('C06')['runs'] if r['flavour'] == 'nochk' and r['src'] != 'harness/c06_depth.cpp'])
+# ... and, for every property, the chk/nochk runs of those (source, part) combinations that have NO san run in the same tier:
+# canaries, range-checking wrappers, crash/hang traps and the poison differential tag their findings C02 in every flavour,
+# and a finding in a part that only runs without sanitizer would otherwise be counted by no check
+def native_without_san(pid):
+    p = load(pid)
+    def tiers(r): return tuple(r.get('tiers', ['quick', 'thorough']))
+    san = {(r['src'], tuple(r.get('defs', [])), t) for r in p['runs'] if r['flavour'] in ('san', 'chksan') for t in tiers(r)}
+    out, seen = [], set()
+    for r in p['runs']:
+        if r['flavour'] not in ('chk', 'nochk') or r['src'] == 'harness/c06_depth.cpp': continue
+        missing = [t for t in tiers(r) if (r['src'], tuple(r.get('defs', [])), t) not in san]
+        if not missing: continue
+        k = (r['src'], tuple(r.get('defs', [])), tuple(missing))
+        if k in seen: continue   # one native flavour per part is enough
+        seen.add(k)
+        n = dict(r); n['tiers'] = missing
+        out.append(n)
+    return out
+extra = []
+for pid in src_props:
+    extra += native_without_san(pid)
+add_runs('C02', extra)
 def tracked(r):
     t = TRACKED.get(r['src'])
     if t is None: return False
